@@ -143,7 +143,7 @@ def showIface (i : Iface) : String :=
   ++ ":" ++ showTime i.stats.lastUpdate ++ ":" ++ showTime i.stats.startTime ++ ":" ++ showTime i.stats.endTime
   ++ ":" ++ hx i.stats.comment ++ ":" ++ toString i.stats.received ++ ":" ++ toString i.stats.dropped
 
-def showState (s : St) : List String :=
+def showState (s : S) : List String :=
   ["L" ++ toString s.linkType, "I" ++ toString s.ifaces.length] ++ s.ifaces.map showIface
   ++ ["S:" ++ hx s.sect.hardware ++ ":" ++ hx s.sect.os ++ ":" ++ hx s.sect.app ++ ":" ++ hx s.sect.comment,
       "N" ++ toString s.names.length]
@@ -153,23 +153,23 @@ def maxErrs : Nat := 6
 def maxPkts : Nat := 100000
 
 /-- the calls of one `read` op: keep calling after plain errors (at most `maxErrs` of them) -/
-partial def readLoop (s : St) (errs pkts : Nat) (acc : Array String) : Array String × St × Bool :=
-  if pkts ≥ maxPkts then (acc.push "E:limit", s, true) else
-  match readPacket s with
-  | .ok p s' => readLoop s' errs (pkts + 1) (acc.push (showPkt p))
-  | .fail e s' =>
+partial def readLoop (r : Rd) (errs pkts : Nat) (acc : Array String) : Array String × Rd × Bool :=
+  if pkts ≥ maxPkts then (acc.push "E:limit", r, true) else
+  match readPacket r with
+  | .ok p s w => readLoop ⟨s, w⟩ errs (pkts + 1) (acc.push (showPkt p))
+  | .fail e s w =>
     let acc := acc.push ("E:" ++ errStr e)
     match e with
-    | .err | .werr => if errs + 1 ≥ maxErrs then (acc, s', true) else readLoop s' (errs + 1) pkts acc
-    | .panic _ | .hang => (acc, s', false)
-    | _ => (acc, s', true)
+    | .err | .werr => if errs + 1 ≥ maxErrs then (acc, ⟨s, w⟩, true) else readLoop ⟨s, w⟩ (errs + 1) pkts acc
+    | .panic _ | .hang => (acc, ⟨s, w⟩, false)
+    | _ => (acc, ⟨s, w⟩, true)
 
 def doRead (cfg : Cfg) (inp : Bytes) : String :=
   match openReader cfg inp with
-  | .fail e _ => "new=" ++ errStr e
-  | .ok _ s =>
-    let (acc, sf, dump) := readLoop s 0 0 #[]
-    joinSp (["new=ok"] ++ acc.toList ++ (if dump then showState sf else []))
+  | .fail e _ _ => "new=" ++ errStr e
+  | .ok _ s w =>
+    let (acc, rf, dump) := readLoop ⟨s, w⟩ 0 0 #[]
+    joinSp (["new=ok"] ++ acc.toList ++ (if dump then showState rf.s else []))
 
 def stepNg (st : DSt) (ws : List String) : DSt × String :=
   match ws with
